@@ -105,7 +105,22 @@ func judgeSign(rec *ev.Rec, seed, msg []byte, v ref.Variant) bool {
 	var libSig []byte
 	pan := safe(func() {
 		wantPub, wantSig := ref.Sign(seed, msg, v)
-		priv := ed25519.NewKeyFromSeed(seed)
+		// the seed is handed over as a sub-slice of a larger caller buffer
+		// which the caller reuses afterwards: the derived key must neither
+		// write into that buffer nor keep referring to it
+		buf := make([]byte, 128)
+		for i := range buf {
+			buf[i] = 0xEE
+		}
+		copy(buf[16:48], seed)
+		priv := ed25519.NewKeyFromSeed(buf[16:48])
+		for i := range buf {
+			if (i < 16 || i >= 48) && buf[i] != 0xEE {
+				bad = "NewKeyFromSeed wrote outside the 32 seed bytes of the caller's buffer"
+				return
+			}
+			buf[i] = 0x11
+		}
 		pub := priv.Public().(ed25519.PublicKey)
 		if !bytes.Equal(pub, wantPub) || !bytes.Equal(priv[32:], wantPub) || !bytes.Equal(priv[:32], seed) {
 			bad = fmt.Sprintf("public key %x, RFC 8032 model %x", []byte(pub), wantPub)
